@@ -442,8 +442,16 @@ void DiffVisitor::bvisit(const Add &self)
             iaddnum(outArg(coef),
                     mulnum(p.second, down_cast<const Add &>(*term).get_coef()));
         } else {
-            Add::as_coef_term(mul(p.second, term), outArg(coef2), outArg(t));
-            Add::dict_add_term(d, coef2, t);
+            // p.second * term can itself be an Add, e.g. -1 * (-(1 + tan(x)**2))
+            RCP<const Basic> pt = mul(p.second, term);
+            if (is_a<Add>(*pt)) {
+                for (auto &q : (down_cast<const Add &>(*pt)).get_dict())
+                    Add::dict_add_term(d, q.second, q.first);
+                iaddnum(outArg(coef), down_cast<const Add &>(*pt).get_coef());
+            } else {
+                Add::as_coef_term(pt, outArg(coef2), outArg(t));
+                Add::dict_add_term(d, coef2, t);
+            }
         }
     }
     result_ = Add::from_dict(coef, std::move(d));
